@@ -25,6 +25,11 @@ theorem iNET_eq_sound (a b : State) (h : eq a b = .ok true) : (pack a).2 = (pack
       repeat' split
       all_goals simp_all
 
+/-- non-vacuity: equal although the packages' private length fields differ -/
+example : eq { fresh with type := 3, app_fields := [1, 2], packages := [{ Pkg.fresh with definitionID := 7, payload := [1, 2, 3, 4, 5] }] }
+    { fresh with type := 3, app_fields := [1, 2],
+                 packages := [{ Pkg.fresh with definitionID := 7, payload := [1, 2, 3, 4, 5], length := 99 }] } = .ok true := rfl
+
 /-- the object decoded from a's encoding compares equal to a -/
 theorem iNET_eq_decode (a t : State) (h : iNET_WF a) :
     ∃ b, (pack a).2 = .ok b ∧ (unpack t b).2 = .ok () ∧ eq a (unpack t b).1 = .ok true := by
@@ -38,6 +43,13 @@ theorem iNET_eq_decode (a t : State) (h : iNET_WF a) :
     obtain ⟨y, hy, rfl⟩ := hp
     exact Pkg_WF_norm y (h10 y hy)
   simp [eq, decoded, packed, packPkgs_eq _ h10, packPkgs_eq _ hn, flatMap_pkgBytes_norm]
+
+example : iNET_WF { fresh with type := 3, app_fields := [1, 2],
+                               packages := [{ Pkg.fresh with definitionID := 7, payload := [1, 2, 3, 4, 5] }, Pkg.fresh] } := by
+  refine ⟨by simp [fresh], by simp, by simp [fresh, INET_DEFAULT_VERSION], by simp [fresh], by simp [fresh],
+    by simp [fresh], by simp [fresh], by simp, by simp, ?_, ?_⟩
+  · intro p hp; simp [fresh] at hp; rcases hp with rfl | rfl <;> simp [Pkg_WF, Pkg.fresh]
+  · simp [fresh, pkgBytes, pkgHdr, pad4, Pkg.fresh]
 
 /- `iNETPackage` defines no `__eq__` (equality is object identity), so there is nothing to state for it. -/
 
